@@ -167,7 +167,7 @@ def cases(tier):
     bc = [7, 8, 9, 25, 26, 27, 97, 98, 99, 385, 386, 387]
     if tier == "quick":
         N3 = sorted(set(list(range(1, 131)) + b3 + bc + [2560, 2561, 2562, 1536, 1537, 1538]))
-        N4 = sorted(set(list(range(1, 41)) + [41, 42]))
+        N4 = sorted(set(list(range(1, 41)) + [41, 42, 207]))        # randomQ row 206 has a tiny first coordinate
         fd = [8, 40]
         pref = [("ico", 3), ("cube3D", 3), ("cube4D", 2)]
     else:
